@@ -370,6 +370,9 @@ func (a *SPS) ConstraintFlags() byte {
 
 // GetSARfromIDC - get Sample Aspect Ratio from IDC index
 func GetSARfromIDC(index uint) (uint, uint, error) {
+	if index == 0 {
+		return 0, 0, nil // Table E-1: aspect_ratio_idc 0 is "Unspecified", not an error
+	}
 	if index < 1 || index > 16 {
 		return 0, 0, fmt.Errorf("SAR bad index %d", index)
 	}
